@@ -4,6 +4,7 @@ import (
 	"encoding/hex"
 	"fmt"
 	"os"
+	"reflect"
 	"strings"
 	"sync"
 	"testing"
@@ -299,16 +300,45 @@ func checkC12(reg *Registry, c interpCase) pbt.Result {
 		// if the interpreter accepts the generated re-encoding of the same input and reproduces it.
 		if gw, err := gWrite(dec, "tl2"); err == nil {
 			r, died, bad := ask(interpReq{Op: "read", In: hex.EncodeToString(gw)})
-			if bad == nil && died == "" && r.Err == "" && r.Panic == "" && r.Rest == 0 && eq(unhex(r.Out), gw) {
+			same := bad == nil && eq(unhex(r.Out), gw)
+			if bad == nil && !same && r.HasDict {
+				// the []byte variant keeps the order of dictionary entries, the interpreter sorts them: compare what both
+				// re-encodings denote through the map-backed generated reader
+				norm := func(b []byte) ([]byte, bool) {
+					o := Create(it, false)
+					if rest, err := gRead(o, "tl2", b); err != nil || len(rest) != 0 {
+						return nil, false
+					}
+					w, err := gWrite(o, "tl2")
+					return w, err == nil
+				}
+				a, ok1 := norm(unhex(r.Out))
+				b, ok2 := norm(gw)
+				same = ok1 && ok2 && eq(a, b)
+			}
+			if bad == nil && died == "" && r.Err == "" && r.Panic == "" && r.Rest == 0 && same {
 				return pbt.Result{Excluded: "F30"}
 			}
 		}
+	}
+	probe := ""
+	if gErr == nil && ir.Err != "" && c.Format == "tl2" && ir.HasTuple {
+		if gw, err := gWrite(dec, "tl2"); err == nil {
+			if r, died, bad := ask(interpReq{Op: "read", In: hex.EncodeToString(gw)}); bad == nil {
+				probe = fmt.Sprintf("\n the interpreter on the generated re-encoding %s: err=%q panic=%q died=%q rest=%d reproduces=%v (%s)", hexHead(gw), r.Err, r.Panic, died, r.Rest, eq(unhex(r.Out), gw), diffAt(gw, unhex(r.Out)))
+			}
+		}
+	}
+	if gErr == nil && strings.Contains(ir.Err, "unexpected variant index") && c.Format == "tl2" && c.Source == "mutated" && pbt.Known("F51") && !pbt.Replaying() && hasEmptyStructField(reflect.TypeOf(dec), 0) {
+		// known finding F51: generated code skips the object of a field whose type is a field-less struct without
+		// reading it, the interpreter parses it and refuses a variant index other than 0
+		return pbt.Result{Excluded: "F51"}
 	}
 	if (gErr == nil) != (ir.Err == "") {
 		if c.Source != "mutated" {
 			return pbt.Fail("%s: %s bytes written by the %s side are not accepted by the other: %s; generated reader: %v; interpreter: %q", c.Item, c.Format, c.Source, hexHead(in), gErr, ir.Err)
 		}
-		return pbt.Fail("%s: verdicts differ on %s input %s: generated reader: %v; interpreter: %q", c.Item, c.Format, hexHead(in), gErr, ir.Err)
+		return pbt.Fail("%s: verdicts differ on %s input %s: generated reader: %v; interpreter: %q%s", c.Item, c.Format, hexHead(in), gErr, ir.Err, probe)
 	}
 	if gErr != nil {
 		return pbt.Result{NonTrivial: len(in) >= 4, Classes: append(cls, "both-rejected")}
@@ -369,7 +399,11 @@ func checkC12(reg *Registry, c interpCase) pbt.Result {
 		}
 	}
 	if !eq(gw, iw) {
-		return pbt.Fail("%s: both accept %s input %s but re-encode differently: %s\n generated   %s\n interpreter %s", c.Item, c.Format, hexHead(in), diffAt(gw, iw), hexHead(gw), hexHead(iw))
+		if c.Format == "tl2" && HasNegZero(dec) && pbt.Known("F24") && !pbt.Replaying() {
+			return pbt.Result{Excluded: "F24"} // generated code drops a float -0.0 as empty, the interpreter keeps it
+		}
+		js, _ := jsonOf(dec, JSONOpts{})
+		return pbt.Fail("%s: both accept %s input %s but re-encode differently: %s\n generated   %s\n interpreter %s\n generated code read the input as %s", c.Item, c.Format, hexHead(in), diffAt(gw, iw), hexHead(gw), hexHead(iw), strHead(js))
 	}
 	if c.Source != "mutated" && !eq(gw, in) && !HasMap(dec) {
 		return pbt.Fail("%s: %s bytes written by the %s side are re-encoded differently by both: %s", c.Item, c.Format, c.Source, diffAt(in, gw))
@@ -407,4 +441,31 @@ func propC12(t *testing.T, reg *Registry) {
 		}
 		return c
 	}, func(c interpCase) pbt.Result { return checkC12(reg, c) })
+}
+
+// hasEmptyStructField: somewhere inside the type there is a field (or element) whose type is a struct without fields.
+func hasEmptyStructField(t reflect.Type, depth int) bool {
+	if depth > 12 {
+		return false
+	}
+	switch t.Kind() {
+	case reflect.Ptr, reflect.Slice, reflect.Array:
+		return hasEmptyStructField(t.Elem(), depth+1)
+	case reflect.Map:
+		return hasEmptyStructField(t.Elem(), depth+1)
+	case reflect.Struct:
+		for i := 0; i < t.NumField(); i++ {
+			ft := t.Field(i).Type
+			for ft.Kind() == reflect.Ptr || ft.Kind() == reflect.Slice || ft.Kind() == reflect.Array {
+				ft = ft.Elem()
+			}
+			if ft.Kind() == reflect.Struct && ft.NumField() == 0 {
+				return true
+			}
+			if hasEmptyStructField(t.Field(i).Type, depth+1) {
+				return true
+			}
+		}
+	}
+	return false
 }
